@@ -34,8 +34,8 @@ CLAIMED = {
          "Generated-input search with execution as oracle: type singletons dereference once (null gives None), enum singletons read the value in place, extern accessors return a reference to exactly the declared address with the declared type, writes are visible there. Exploration.",
          "Addresses are 64-aligned and drawn from ranges that can be mapped on the host.",
          "DESIGN.md §4 C15"),
- "C14": ("proptest rich multi-module inputs through pyxis::build on disk; file-set and exact item-set oracle (syn), marker-const placement for backend text; injected name collisions must be errors",
-         "Generated-input search: the output directory must hold exactly one file per module, each with exactly the declared structs/enums/vftable structs/accessors; rust prologue/epilogue markers in order and position, other backends absent; every injected duplicate definition (type/type, type/enum, type/extern, user <T>Vftable) must be an error. Exploration.",
+ "C14": ("proptest rich multi-module inputs through pyxis::build on disk; file-set and exact item-set oracle (syn), marker-const placement for backend text; injected name collisions must be errors; dotted directory and file names",
+         "Generated-input search: the output directory must hold exactly one file per module, each with exactly the declared structs/enums/vftable structs/accessors; rust prologue/epilogue markers in order and position, other backends absent; every injected duplicate definition (type/type, type/enum, type/extern, user <T>Vftable, extern value/extern value) must be an error; module files under directory names and stems with dots in them (siblings equal up to a dot) land at <input path>.rs. Exploration.",
          "Backend text is observed through uniquely named marker consts placed in it by the generator.",
          "DESIGN.md §4 C14"),
  "C16": ("proptest rich programs; syn visitor over every bare-fn type of the unnormalised output against the declared/default convention per slot and wrapper; unknown names must be rejected",
@@ -62,8 +62,8 @@ CLAIMED = {
          "Generated-input search with the Rust compiler as oracle: size_of/align_of of every emitted struct, enum and vftable struct equal what pyxis resolved and relied on; declared #[size]/#[align]/#[packed] equal the compiled values; both pointer widths. Exploration.",
          "Same trusted base as C01.",
          "DESIGN.md §4 C02"),
- "C13": ("proptest rich multi-module programs; the assembled crate is type-checked by rustc (host stable with ABI strings normalised; i686-pc-windows-msvc nightly unmodified) and each file parsed by syn",
-         "Generated-input search with the compiler as oracle: every accepted program of the documented fragment must give files that parse and a crate that type-checks on both targets. Known findings are excluded from the generator by construction (counted) and demonstrated by their own replays. Exploration.",
+ "C13": ("proptest rich multi-module programs; the assembled crate is type-checked by rustc (host stable with ABI strings normalised; i686-pc-windows-msvc nightly unmodified) and each file parsed by syn; programs with injected name clashes, judged when accepted",
+         "Generated-input search with the compiler as oracle: every accepted program of the documented fragment must give files that parse and a crate that type-checks on both targets; a second part perturbs small programs with name clashes (repeated or re-declared functions and members, renames onto names in use or generated by the backend) and type-checks whatever pyxis accepts. Known findings are excluded from the generator by construction (counted) and demonstrated by their own replays. Exploration.",
          "The harness adds only: mod declarations mirroring the tree, extern type definitions (repr(C, align), Copy+Clone), and the crate root; width 4 uses `extern crate core as std`.",
          "DESIGN.md §4 C13"),
  "C10": ("proptest dependency-graph generator against a reference resolvability model (both directions) + syn inspection of the output + error-message content",
